@@ -259,6 +259,32 @@ def check_linear(c):
                 Ag2 = teneva.func_int_general(cores, np.array([x] * d), bf)
                 res.check(np.abs(ref.dense(Ag2) - ref.dense(Ag)).max() <= T * max(1.0, cond), 'general.X2d', case2,
                           '1-D and 2-D point arguments differ', tags)
+        # different node sets per core (2-D X with different rows): values of the same polynomial on a non-tensor-uniform grid
+        res.ev()
+        xs = [a + (b - a) * (0.5 - 0.5 * np.cos(np.pi * (np.arange(n) + 0.5 * (k % 2) * 0.7) / (n - 0.3 + 0.3 * (k % 2)))) ** (1.0 + 0.35 * k) for k in range(d)]
+        cores2 = []
+        for k in range(d):
+            vals = np.array([np.polynomial.polynomial.polyval(xs[k], coef[t, :, k]) for t in range(rk)])
+            if k == 0:
+                G = vals.T.reshape(1, n, rk)
+            elif k == d - 1:
+                G = vals.reshape(rk, n, 1)
+            else:
+                G = np.zeros((rk, n, rk))
+                for t in range(rk):
+                    G[t, :, t] = vals[t]
+            cores2.append(G.copy())
+        sc2 = max(abs(a), abs(b))
+        bf2 = lambda xx: np.array([(np.asarray(xx, dtype=float).reshape(-1) / sc2) ** j for j in range(n)])
+        case3 = dict(c, basis='mono', nodes='per-core')
+        try:
+            Ag3 = teneva.func_int_general(cores2, np.array(xs), bf2)
+            got3 = teneva.func_get(X, Ag3, a, b, funcs=[bf2] * d)
+            cond3 = max(np.linalg.cond(bf2(xk).T) for xk in xs)
+            res.check(np.abs(got3 - f(X)).max() <= T * max(1.0, cond3) * 100, 'general.per_core_nodes', case3,
+                      lambda: 'per-core node sets: reproduction off by %.3e' % np.abs(got3 - f(X)).max(), tags + ['general'])
+        except Exception as ex:
+            res.fail('general.raised', case3, 'func_int_general (2-D X) raised %s: %s' % (type(ex).__name__, str(ex)[:150]), tags + ['general', 'exception'])
         # sine kind: transform / re-sampling pair
         res.ev()
         S = teneva.func_int(cores, 'sin')
